@@ -44,7 +44,7 @@ static int toks_in[MAXW];
 static int ntoks;
 static char wid[128] = "-";
 static char tags[MAXW + 2];	/* attribute of token i is &tags[i] */
-static int x_sent, x_fo, x_nd, x_nt, x_rc, x_have_trees, x_have_repairs;
+static int x_sent, x_fo, x_nd, x_nt, x_rc, x_have_trees, x_have_repairs, x_cap;
 static int x_rcost[16][16];	/* minimal simple recovery cost by error token and recovery_match, -1 unknown */
 static char *exp_t[MAXEXP];
 static char exp_min[MAXEXP];
@@ -710,6 +710,7 @@ static void do_parse (int la, int one, int cost, int rec, int match, int dbg, in
       w_check_live = (mem == 0 || mem == 2) && ntoks <= 300;
       w_cap = (x_have_trees && x_sent == 1 ? n_exp : x_have_repairs ? n_exp_r : 0) + 1;
       if (w_cap < 8) w_cap = 8;
+      if (x_cap > w_cap) w_cap = x_cap;	/* trace lines whose denoted set is counted by TLC */
       if (ntoks > 300) w_cap = 0;
       ridx = walk (root);
       if (w_cycle) mismatch_i ("tree has a cycle", w_cycle, 0);
@@ -888,7 +889,7 @@ static void clear_expect (void)
   for (i = 0; i < n_exp; i++) __real_free (exp_t[i]);
   for (i = 0; i < n_exp_r; i++) __real_free (exp_r[i]);
   n_exp = n_exp_r = 0;
-  x_sent = -1; x_fo = -1; x_nd = -1; x_nt = -1; x_rc = 0; x_have_trees = 0; x_have_repairs = 0;
+  x_sent = -1; x_fo = -1; x_nd = -1; x_nt = -1; x_rc = 0; x_have_trees = 0; x_have_repairs = 0; x_cap = 0;
   for (i = 0; i < 256; i++) x_rcost[i / 16][i % 16] = -1;
 }
 
@@ -986,6 +987,7 @@ int main (int argc, char **argv)
 	      else if (strcmp (kv, "rc") == 0) x_rc = v;
 	      else if (strcmp (kv, "trees") == 0) x_have_trees = v;
 	      else if (strcmp (kv, "repairs") == 0) x_have_repairs = v;
+	      else if (strcmp (kv, "cap") == 0) x_cap = v;
 	      else if (kv[0] == 'r' && kv[1] == 'c' && isdigit ((unsigned char) kv[2]) && strchr (kv, '_') != NULL)
 		{
 		  int k = atoi (kv + 2), m = atoi (strchr (kv, '_') + 1);
